@@ -164,6 +164,11 @@ fn action_kind(action: &PeerAction) -> (char, usize) {
 
 /// Hook: the event loop drained the query engine and is about to wait for the next event.
 pub(super) fn snapshot(kad: &Kademlia) {
+    if table::watching() {
+        // `t` box: the routing table and the keys of `self.peers`
+        table::record(&kad.routing_table, kad.peers.keys());
+        return;
+    }
     let universe: Vec<PeerId> = (0..=MAX_PEER).map(peer).collect();
     let snap = Snap {
         dials: kad
@@ -251,6 +256,10 @@ struct Inner {
     inbounds: Vec<Inbound>,
     /// Keys this node announced itself for and has not stopped providing.
     providing: Vec<u8>,
+    /// The user does not read the handle's events (`hold` … `release`, and during a `burst`).
+    hold: bool,
+    /// Number of events read from the handle so far.
+    events_read: usize,
 }
 
 /// Remote end of an inbound substream.
@@ -458,6 +467,23 @@ fn response_str(frame: &[u8]) -> String {
     }
 }
 
+/// `q=5,q=6,q=7` -> `q=5..7`; `ok,ok,ok` -> `ok*3`; anything else joined by `,`.
+fn compress_heads(heads: &[String]) -> String {
+    if heads.len() < 2 {
+        return heads.join(",");
+    }
+    if heads.iter().all(|h| h == &heads[0]) {
+        return format!("{}*{}", heads[0], heads.len());
+    }
+    let split = |h: &String| h.split_once('=').and_then(|(k, v)| v.parse::<usize>().ok().map(|v| (k.to_string(), v)));
+    if let Some((key, first)) = split(&heads[0]) {
+        if heads.iter().enumerate().all(|(i, h)| split(h) == Some((key.clone(), first + i))) {
+            return format!("{key}={first}..{}", first + heads.len() - 1);
+        }
+    }
+    heads.join(",")
+}
+
 impl Inner {
     async fn new(kinds: Vec<char>, opts: &Opts) -> Self {
         let local = peer(0);
@@ -543,6 +569,8 @@ impl Inner {
             started: Vec::new(),
             inbounds: Vec::new(),
             providing: Vec::new(),
+            hold: false,
+            events_read: 0,
         }
     }
 
@@ -579,7 +607,15 @@ impl Inner {
             }
             inbound.frames = frames.len();
         }
+        if !self.hold {
+            self.read_events();
+        }
+    }
+
+    /// The user reads every event the handle holds right now.
+    fn read_events(&mut self) {
         while let Some(Some(event)) = self.handle.next().now_or_never() {
+            self.events_read += 1;
             let terminal = match &event {
                 KademliaEvent::FindNodeSuccess { query_id, .. } => Some((query_id.0, "FindNodeSuccess")),
                 KademliaEvent::GetRecordSuccess { query_id } => Some((query_id.0, "GetRecordSuccess")),
@@ -625,9 +661,18 @@ impl Inner {
     }
 
     async fn quiesce(&mut self) {
-        for _ in 0..ROUNDS {
-            tokio::task::yield_now().await;
-            self.pump();
+        // (reading the handle must not be cut short by tokio's cooperative budget; a coordinator that filled
+        // the event channel is suspended in the middle of a handler and goes on once the user has read: keep
+        // going until nothing more arrives)
+        loop {
+            let before = self.events_read;
+            for _ in 0..ROUNDS {
+                tokio::task::yield_now().await;
+                tokio::task::unconstrained(async { self.pump() }).await;
+            }
+            if self.events_read == before {
+                break;
+            }
         }
     }
 
@@ -1069,6 +1114,58 @@ impl Inner {
 
     /// One primitive operation; `None` = unparseable.
     async fn primitive(&mut self, t: &[&str]) -> Option<String> {
+        let head = self.head(t).await?;
+        self.quiesce().await;
+        Some(format!("{head} {}", self.finish()))
+    }
+
+    /// `release [<primitive>]`: the primitive runs while the user still does not read; then the user reads
+    /// everything (the coordinator, possibly suspended on the full event channel, runs on).
+    async fn release(&mut self, t: &[&str]) -> Option<String> {
+        let head = if t.is_empty() { "ok".to_string() } else { self.head(t).await? };
+        for _ in 0..ROUNDS {
+            tokio::task::yield_now().await;
+            self.pump();
+        }
+        self.hold = false;
+        self.quiesce().await;
+        Some(format!("{head} {}", self.finish()))
+    }
+
+    /// `burst <n> <primitive>`: the primitive `n` times back to back while the user does not read the handle's
+    /// events (more events than the event channel holds: the coordinator's `send` suspends); afterwards, unless
+    /// `hold` is in force, the user reads everything.
+    async fn burst(&mut self, n: usize, t: &[&str]) -> Option<String> {
+        let held = self.hold;
+        self.hold = true;
+        let mut heads = Vec::new();
+        for _ in 0..n {
+            match self.head(t).await {
+                Some(head) => heads.push(head),
+                None => {
+                    self.hold = held;
+                    if heads.is_empty() {
+                        return None;
+                    }
+                    heads.push("!refused".into());
+                    break;
+                }
+            }
+            for _ in 0..3 {
+                tokio::task::yield_now().await;
+            }
+        }
+        for _ in 0..ROUNDS {
+            tokio::task::yield_now().await;
+            self.pump();
+        }
+        self.hold = held;
+        self.quiesce().await;
+        Some(format!("{} {}", compress_heads(&heads), self.finish()))
+    }
+
+    /// The operation itself (no scheduling round, no observation); `None` = unparseable.
+    async fn head(&mut self, t: &[&str]) -> Option<String> {
         let num = |s: &str| s.trim_start_matches('#').parse::<usize>().ok();
         let key = |s: &str| s.parse::<u8>().ok().map(|k| RecordKey::from(vec![k]));
         // `<op>_a`: the awaiting variant of a handle method instead of `try_<op>`
@@ -1251,14 +1348,14 @@ impl Inner {
             ["events"] => "ok".into(),
             _ => return None,
         };
-        self.quiesce().await;
-        Some(format!("{head} {}", self.finish()))
+        Some(head)
     }
 
     /// Discharge every obligation of the environment: conclude the dials, answer the substream
     /// opens (with failures), let every executor future run into its timeout; repeat until
     /// nothing is outstanding.
     async fn settle(&mut self) -> String {
+        self.hold = false;
         let mut parts = Vec::new();
         // no further republishing of local providers: the refresh timers become no-ops
         for k in self.providing.clone() {
@@ -1326,6 +1423,7 @@ pub struct KadBox {
     runtime: tokio::runtime::Runtime,
     inner: Option<Inner>,
     exec: Option<exec::ExecBox>,
+    tbox: Option<table::TBox>,
 }
 
 impl KadBox {
@@ -1333,6 +1431,7 @@ impl KadBox {
     pub fn new() -> Self {
         TRACE.with(|t| t.borrow_mut().clear());
         SNAP.with(|s| *s.borrow_mut() = Snap::default());
+        table::reset();
         Self {
             runtime: tokio::runtime::Builder::new_current_thread()
                 .enable_time()
@@ -1341,9 +1440,13 @@ impl KadBox {
                 .expect("runtime"),
             inner: None,
             exec: None,
+            tbox: None,
         }
     }
 }
+
+#[path = "c16_table.rs"]
+mod table;
 
 #[path = "c16_s2.rs"]
 mod s2;
@@ -1358,9 +1461,33 @@ impl VerifBox for KadBox {
             // real nodes on loopback, own runtime with the real clock
             return s2::run(rest);
         }
+        if let ["t", rest @ ..] = t.as_slice() {
+            // the real coordinator with dictated Kademlia keys: routing-table wiring (C14 at coordinator level)
+            if self.inner.is_some() || self.exec.is_some() {
+                return "bad-op".into();
+            }
+            if let ["new", key] = rest {
+                let Some(key) = (key.len() == 64 && key.bytes().all(|b| b.is_ascii_hexdigit()))
+                    .then(|| crate::verif::unhex(key))
+                else {
+                    return "bad-op".into();
+                };
+                if self.tbox.is_some() {
+                    return "bad-op".into();
+                }
+                let mut local = [0u8; 32];
+                local.copy_from_slice(&key);
+                self.tbox = Some(self.runtime.block_on(table::TBox::new(local)));
+                return "ok".into();
+            }
+            let Some(tbox) = self.tbox.as_mut() else {
+                return "bad-op".into();
+            };
+            return self.runtime.block_on(tbox.step(rest)).unwrap_or_else(|| "bad-op".into());
+        }
         if let ["x", rest @ ..] = t.as_slice() {
             // the real `QueryExecutor` on scripted substreams (paused clock of this box)
-            if self.inner.is_some() {
+            if self.inner.is_some() || self.tbox.is_some() {
                 return "bad-op".into();
             }
             let exec = self.exec.get_or_insert_with(exec::ExecBox::new);
@@ -1375,6 +1502,7 @@ impl VerifBox for KadBox {
                 kinds.iter().filter(|k| !k.contains('=')).filter_map(|k| k.chars().next()).collect();
             if self.inner.is_some()
                 || self.exec.is_some()
+                || self.tbox.is_some()
                 || kinds.is_empty()
                 || kinds.len() as u64 > MAX_PEER
                 || kinds.iter().any(|k| !"gbn".contains(*k))
@@ -1395,6 +1523,22 @@ impl VerifBox for KadBox {
         self.runtime.block_on(async {
             if t.as_slice() == ["settle"] {
                 return inner.settle().await;
+            }
+            if t.as_slice() == ["hold"] {
+                inner.hold = true;
+                return "ok".into();
+            }
+            if let ["release", rest @ ..] = t.as_slice() {
+                if !inner.hold {
+                    return "bad-op".into();
+                }
+                return inner.release(rest).await.unwrap_or_else(|| "bad-op".into());
+            }
+            if let ["burst", n, rest @ ..] = t.as_slice() {
+                let Some(n) = n.parse::<usize>().ok().filter(|n| (1..=6000).contains(n) && !rest.is_empty()) else {
+                    return "bad-op".into();
+                };
+                return inner.burst(n, rest).await.unwrap_or_else(|| "bad-op".into());
             }
             match inner.primitive(&t).await {
                 Some(out) => out,
